@@ -20,6 +20,7 @@ META = {
         "random strings: must be TransitionNotAllowed (strict) or None (tolerant), state and helper log "
         "unchanged. "
         "styles include the trigger object itself handed to send(), the machine's own and one taken from another machine. "
+        "Probes: events declared by calling a transition with a callable of another __name__, explicit Event ids, triggers outliving other references to their machine; the sweep includes internal names such as __initial__ on machines away from their initial state. "
         "distinct_nontrivial = distinct style sequences with >=3 styles + distinct "
         "attribute-name categories swept."
     ),
